@@ -23,7 +23,29 @@ fn main() {
             let id = args[2].as_str();
             let tier = args[3].as_str();
             match lsmv::props::spec(id) {
-                Some(spec) => lsmv::runner::run_history_check(&spec, tier, seed),
+                Some(spec) => {
+                    let mut code = lsmv::runner::run_history_check(&spec, tier, seed);
+                    if id == "C20" && tier == "thorough" && code == 0 {
+                        let (c, extra) = lsmv::special::c20_crash_stage(seed);
+                        code = c;
+                        // fold the stage into the evidence file
+                        let p = "/verif/evidence/C20.json";
+                        if let Ok(txt) = std::fs::read_to_string(p) {
+                            if let Ok(mut v) = serde_json::from_str::<serde_json::Value>(&txt) {
+                                if let (Some(cov), Some(e)) = (v["coverage"].as_object_mut(), extra.as_object()) {
+                                    for (k, x) in e {
+                                        cov.insert(k.clone(), x.clone());
+                                    }
+                                }
+                                if c != 0 {
+                                    v["violations"] = serde_json::json!(1);
+                                }
+                                let _ = std::fs::write(p, serde_json::to_string_pretty(&v).unwrap_or_default());
+                            }
+                        }
+                    }
+                    code
+                }
                 None => match lsmv::special::check(id, tier, seed) {
                     Some(c) => c,
                     None => {
@@ -45,7 +67,10 @@ fn main() {
                 usage();
             }
             let id = args[2].as_str();
-            match lsmv::props::spec(id) {
+            let is_special_kind = std::fs::read_to_string(&args[3])
+                .map(|t| t.contains("\"kind\": \"crash-reclaim\""))
+                .unwrap_or(false);
+            match lsmv::props::spec(id).filter(|_| !is_special_kind) {
                 Some(spec) => lsmv::runner::replay_history(&spec, Path::new(&args[3])),
                 None => match lsmv::special::replay(id, Path::new(&args[3])) {
                     Some(c) => c,
